@@ -118,6 +118,8 @@ impl World {
             self.last_clock = self.clock[self.clock_pos];
             self.clock_pos += 1;
         }
+        let (w, m) = self.last_clock;
+        self.log(format!("AClock {{| wall := {}; mono := {} |}}", g_z(w), g_z(m)), format!("clock wall={} mono={}", w, m));
         self.last_clock
     }
     fn get(&self, k: &str) -> Option<SVal> {
@@ -361,14 +363,14 @@ impl PolicyEngine for Pol {
         protocol_state: &'a ProtocolState,
     ) -> BoxFuture<'a, CheckTiming> {
         let mut w = self.w.lock().unwrap();
-        w.log(
-            format!("APolicy (QNextTime {} {} {})", g_apps(apps), g_sched(scheduling), g_ps(protocol_state)),
-            format!("policy next_time fails={} poll={:?}", protocol_state.consecutive_failed_update_checks, protocol_state.server_dictated_poll_interval),
-        );
         let t = match w.pop(0) {
             Some(v) => timing_of(&v),
             None => CheckTiming::builder().time(PartialComplexTime::Monotonic(inst_from_ns(0))).build(),
         };
+        w.log(
+            format!("APolicy (QNextTime {} {} {}) (PTiming {})", g_apps(apps), g_sched(scheduling), g_ps(protocol_state), g_timing(&t)),
+            format!("policy next_time fails={} poll={:?} -> {}", protocol_state.consecutive_failed_update_checks, protocol_state.server_dictated_poll_interval, g_timing(&t)),
+        );
         future::ready(t).boxed()
     }
     fn update_check_allowed<'a>(
@@ -379,16 +381,6 @@ impl PolicyEngine for Pol {
         check_options: &'a CheckOptions,
     ) -> BoxFuture<'a, CheckDecision> {
         let mut w = self.w.lock().unwrap();
-        w.log(
-            format!(
-                "APolicy (QCheckAllowed {} {} {} {})",
-                g_apps(apps),
-                g_sched(scheduling),
-                g_ps(protocol_state),
-                g_source(&check_options.source)
-            ),
-            format!("policy check_allowed src={:?}", check_options.source),
-        );
         let d = match w.pop(1) {
             Some(v) => match v["d"].as_str().unwrap() {
                 "ok" => CheckDecision::Ok(params_of(&v["params"])),
@@ -399,31 +391,50 @@ impl PolicyEngine for Pol {
             },
             None => CheckDecision::Ok(RequestParams::default()),
         };
+        let gd = match &d {
+            CheckDecision::Ok(p) => format!("(DOk {})", g_params(p)),
+            CheckDecision::OkUpdateDeferred(p) => format!("(DOkDeferred {})", g_params(p)),
+            CheckDecision::TooSoon => "DTooSoon".to_string(),
+            CheckDecision::ThrottledByPolicy => "DThrottled".to_string(),
+            CheckDecision::DeniedByPolicy => "DDenied".to_string(),
+        };
+        w.log(
+            format!(
+                "APolicy (QCheckAllowed {} {} {} {}) (PDecision {})",
+                g_apps(apps),
+                g_sched(scheduling),
+                g_ps(protocol_state),
+                g_source(&check_options.source),
+                gd
+            ),
+            format!("policy check_allowed src={:?} -> {:?}", check_options.source, d),
+        );
         future::ready(d).boxed()
     }
     fn update_can_start<'a>(&'a mut self, plan: &'a TPlan) -> BoxFuture<'a, UpdateDecision> {
         let mut w = self.w.lock().unwrap();
-        w.log(format!("APolicy (QCanStart {})", g_str(&plan.id)), format!("policy can_start {}", plan.id));
         let d = match w.pop(2).as_ref().and_then(|v| v.as_str().map(|s| s.to_string())).as_deref() {
             Some("deferred") => UpdateDecision::DeferredByPolicy,
             Some("denied") => UpdateDecision::DeniedByPolicy,
             _ => UpdateDecision::Ok,
         };
+        let gd = match d { UpdateDecision::Ok => "UOk", UpdateDecision::DeferredByPolicy => "UDeferred", UpdateDecision::DeniedByPolicy => "UDenied" };
+        w.log(format!("APolicy (QCanStart {}) (PUDecision {})", g_str(&plan.id), gd), format!("policy can_start {} -> {}", plan.id, gd));
         future::ready(d).boxed()
     }
     fn reboot_allowed<'a>(&'a mut self, check_options: &'a CheckOptions, _r: &'a ()) -> BoxFuture<'a, bool> {
         let mut w = self.w.lock().unwrap();
-        w.log(
-            format!("APolicy (QRebootAllowed {})", g_source(&check_options.source)),
-            format!("policy reboot_allowed src={:?}", check_options.source),
-        );
         let b = w.pop(4).and_then(|v| v.as_bool()).unwrap_or(true);
+        w.log(
+            format!("APolicy (QRebootAllowed {}) (PBool {})", g_source(&check_options.source), g_bool(b)),
+            format!("policy reboot_allowed src={:?} -> {}", check_options.source, b),
+        );
         future::ready(b).boxed()
     }
     fn reboot_needed<'a>(&'a mut self, plan: &'a TPlan) -> BoxFuture<'a, bool> {
         let mut w = self.w.lock().unwrap();
-        w.log(format!("APolicy (QRebootNeeded {})", g_str(&plan.id)), format!("policy reboot_needed {}", plan.id));
         let b = w.pop(3).and_then(|v| v.as_bool()).unwrap_or(false);
+        w.log(format!("APolicy (QRebootNeeded {}) (PBool {})", g_str(&plan.id), g_bool(b)), format!("policy reboot_needed {} -> {}", plan.id, b));
         future::ready(b).boxed()
     }
 }
@@ -452,8 +463,13 @@ impl Installer for Inst {
     ) -> LocalBoxFuture<'a, ((), Vec<AppInstallResult<TErr>>)> {
         let ans = {
             let mut w = self.w.lock().unwrap();
-            w.log(format!("AInstaller (IPerform {})", g_str(&plan.id)), format!("installer perform {}", plan.id));
-            w.pop(7)
+            let a = w.pop(7);
+            let ga = match &a {
+                Some(a) => g_perform(a),
+                None => "{| pa_progress := []; pa_results := [RInstalled; RInstalled; RInstalled; RInstalled; RInstalled] |}".to_string(),
+            };
+            w.log(format!("AInstaller (IPerform {}) (IPerformed {})", g_str(&plan.id), ga), format!("installer perform {} -> {:?}", plan.id, a));
+            a
         };
         async move {
             let mut results = vec![];
@@ -481,8 +497,8 @@ impl Installer for Inst {
     }
     fn perform_reboot(&mut self) -> LocalBoxFuture<'_, Result<(), anyhow::Error>> {
         let mut w = self.w.lock().unwrap();
-        w.log("AInstaller IReboot".to_string(), "installer reboot".to_string());
         let ok = w.pop(8).and_then(|v| v.as_bool()).unwrap_or(true);
+        w.log(format!("AInstaller IReboot (IRebooted {})", g_bool(ok)), format!("installer reboot -> {}", ok));
         future::ready(if ok { Ok(()) } else { Err(anyhow::anyhow!("scripted reboot failure")) }).boxed_local()
     }
     fn try_create_install_plan<'a>(
@@ -502,20 +518,21 @@ impl Installer for Inst {
             };
             wire_ok && cup_ok
         });
-        w.log(
-            format!(
-                "AInstaller (ICreatePlan {} {} {} {})",
-                g_params(request_params),
-                g_opt(meta.map(g_bool)),
-                g_doc(response),
-                g_bool(ecdsa_signature.is_some())
-            ),
-            format!("installer create_plan meta={:?} sig={}", meta, ecdsa_signature.is_some()),
-        );
         let r = match w.pop(6) {
             Some(Value::String(s)) => Ok(TPlan { id: String::from_utf8(hex::decode(s).unwrap()).unwrap() }),
             _ => Err(TErr),
         };
+        w.log(
+            format!(
+                "AInstaller (ICreatePlan {} {} {} {}) (IPlan {})",
+                g_params(request_params),
+                g_opt(meta.map(g_bool)),
+                g_doc(response),
+                g_bool(ecdsa_signature.is_some()),
+                g_opt(r.as_ref().ok().map(|p| g_str(&p.id)))
+            ),
+            format!("installer create_plan meta={:?} sig={} -> {:?}", meta, ecdsa_signature.is_some(), r.as_ref().ok().map(|p| p.id.clone())),
+        );
         future::ready(r).boxed_local()
     }
 }
@@ -746,6 +763,27 @@ fn g_doc_script(d: &Value) -> String {
     format!("{{| d_daystart := {}; d_apps := {} |}}", ds, g_list(&apps))
 }
 
+/// structured content of a request body, read back by parsing the JSON that was put on the wire
+fn g_wsum(body: &str) -> String {
+    let v: Value = serde_json::from_str(body).unwrap_or(Value::Null);
+    let r = &v["request"];
+    let os = |x: &Value| g_opt(x.as_str().map(g_str));
+    let on = |x: &Value| g_opt(x.as_u64().map(g_n));
+    let apps: Vec<String> = r["app"].as_array().cloned().unwrap_or_default().iter().map(|a| {
+        // the *first* occurrence of a key is the protocol field (extras come last in the object);
+        // serde_json::Value keeps the last duplicate, so duplicates of protocol keys are avoided by the generators
+        let uc = match a.get("updatecheck") { Some(u) => format!("(Some ({}, {}))", g_bool(u["updatedisabled"] == true), g_bool(u["sameversionupdate"] == true)), None => "None".into() };
+        let ping = match a.get("ping") { Some(p) => format!("(Some ({}, {}))", on(&p["ad"]), on(&p["rd"])), None => "None".into() };
+        let evs: Vec<String> = a["event"].as_array().cloned().unwrap_or_default().iter().map(|e| format!(
+            "({}, {}, {}, {}, {})", e["eventtype"].as_u64().unwrap_or(999), e["eventresult"].as_u64().unwrap_or(999),
+            g_opt(e["errorcode"].as_i64().map(|x| g_n(x as u64))), os(&e["previousversion"]), os(&e["nextversion"]))).collect();
+        format!("{{| wa_id := {}; wa_cohort := {{| c_id := {}; c_hint := {}; c_name := {} |}}; wa_uc := {}; wa_ping := {}; wa_events := {} |}}",
+                g_str(a["appid"].as_str().unwrap_or("")), os(&a["cohort"]), os(&a["cohorthint"]), os(&a["cohortname"]), uc, ping, g_list(&evs))
+    }).collect();
+    format!("{{| ws_source := {}; ws_session := {}; ws_request := {}; ws_apps := {} |}}",
+            if r["installsource"] == "ondemand" { "OnDemand" } else { "ScheduledTask" }, os(&r["sessionid"]), os(&r["requestid"]), g_list(&apps))
+}
+
 impl HttpRequest for Http {
     fn request(&mut self, req: hyper::Request<hyper::Body>) -> BoxFuture<'_, Result<hyper::Response<Vec<u8>>, http_request::Error>> {
         let w = self.w.clone();
@@ -782,21 +820,26 @@ impl HttpRequest for Http {
             }
             w.last_wire_body = body.clone();
             w.last_wire_cup = cup.clone();
+            let gsum = g_wsum(&text);
             let hs: Vec<String> =
                 parts.headers.iter().map(|(k, v)| format!("({}, {})", g_str(k.as_str()), g_bytes(v.as_bytes()))).collect();
+            let o = w.pop(5);
+            let cup_on = w.cup_keys.is_some();
+            let go = match &o { Some(o) => g_http_outcome(o, cup_on), None => "(HErr TTransport)".to_string() };
             w.log(
                 format!(
-                    "AHttp {{| w_uri := {}; w_headers := {}; w_body := {} |}}",
+                    "AHttp {{| w_uri := {}; w_headers := {}; w_body := {}; w_sum := {} |}} {}",
                     g_str(&uri),
                     g_list(&hs),
-                    g_str(&text)
+                    g_str(&text),
+                    gsum,
+                    go
                 ),
-                format!("http {} {} body={}", parts.method, uri, text),
+                format!("http {} {} body={} -> {}", parts.method, uri, text, o.as_ref().map(|x| x.to_string()).unwrap_or("default transport error".into())),
             );
             if parts.method != http::Method::POST {
-                w.log("AInstaller IReboot".into(), "BAD METHOD".into());
+                w.log("AReply 999999 Started".into(), "BAD METHOD".into());
             }
-            let o = w.pop(5);
             let o = match o {
                 Some(o) => o,
                 None => return Err(http_request::mock_errors::make_transport_error()),
@@ -1144,6 +1187,30 @@ pub fn g_smap(m: &[(String, SVal)]) -> String {
     g_list(&m.iter().map(|(k, v)| format!("({}, {})", g_str(k), g_sval(v))).collect::<Vec<_>>())
 }
 
+pub fn g_http_outcome(o: &Value, cup_on: bool) -> String {
+    if let Some(k) = o.get("err").and_then(|x| x.as_str()) {
+        format!("(HErr {})", match k { "user" => "TUser", "timeout" => "TTimeout", _ => "TTransport" })
+    } else {
+        let ra = arr(o, "retry_after");
+        let body = match o["body"].get("doc") { Some(d) => format!("(BDoc {})", g_doc_script(d)), None => "BBad".to_string() };
+        let auth = o["auth"].as_str().unwrap_or("genuine");
+        format!(
+            "(HResp {} {} {} {})",
+            o["status"].as_u64().unwrap(),
+            g_opt(ra.first().map(|x| g_bytes(&hexv(x)))),
+            g_bool(!cup_on || auth == "genuine"),
+            body
+        )
+    }
+}
+pub fn g_perform(a: &Value) -> String {
+    format!(
+        "{{| pa_progress := {}; pa_results := {} |}}",
+        g_list(&arr(a, "progress").iter().map(|p| g_n(p.as_u64().unwrap())).collect::<Vec<_>>()),
+        g_list(&arr(a, "results").iter().map(|r| match r.as_str().unwrap() { "installed" => "RInstalled", "deferred" => "RDeferred", _ => "RFailed" }.to_string()).collect::<Vec<_>>())
+    )
+}
+
 pub fn g_env(c: &Value) -> String {
     let storage: Vec<(String, SVal)> = arr(c, "storage").iter().map(|kv| (strv(&kv[0]), sval_of(&kv[1]))).collect();
     let clock: Vec<String> = arr(c, "clock")
@@ -1171,36 +1238,9 @@ pub fn g_env(c: &Value) -> String {
         .collect();
     let bl = |k: &str| g_list(&arr(c, k).iter().map(|v| g_bool(v.as_bool().unwrap())).collect::<Vec<_>>());
     let cup_on = !c.get("cup").map(|x| x.is_null()).unwrap_or(true);
-    let ht: Vec<String> = arr(c, "http")
-        .iter()
-        .map(|o| {
-            if let Some(k) = o.get("err").and_then(|x| x.as_str()) {
-                format!("HErr {}", match k { "user" => "TUser", "timeout" => "TTimeout", _ => "TTransport" })
-            } else {
-                let ra = arr(o, "retry_after");
-                let body = match o["body"].get("doc") { Some(d) => format!("(BDoc {})", g_doc_script(d)), None => "BBad".to_string() };
-                let auth = o["auth"].as_str().unwrap_or("genuine");
-                format!(
-                    "HResp {} {} {} {}",
-                    o["status"].as_u64().unwrap(),
-                    g_opt(ra.first().map(|x| g_bytes(&hexv(x)))),
-                    g_bool(!cup_on || auth == "genuine"),
-                    body
-                )
-            }
-        })
-        .collect();
+    let ht: Vec<String> = arr(c, "http").iter().map(|o| { let g = g_http_outcome(o, cup_on); g[1..g.len() - 1].to_string() }).collect();
     let pl: Vec<String> = arr(c, "plan").iter().map(|v| match v.as_str() { Some(s) => format!("Some {}", g_bytes(&hex::decode(s).unwrap())), None => "None".into() }).collect();
-    let pf: Vec<String> = arr(c, "perform")
-        .iter()
-        .map(|a| {
-            format!(
-                "{{| pa_progress := {}; pa_results := {} |}}",
-                g_list(&arr(a, "progress").iter().map(|p| g_n(p.as_u64().unwrap())).collect::<Vec<_>>()),
-                g_list(&arr(a, "results").iter().map(|r| match r.as_str().unwrap() { "installed" => "RInstalled", "deferred" => "RDeferred", _ => "RFailed" }.to_string()).collect::<Vec<_>>())
-            )
-        })
-        .collect();
+    let pf: Vec<String> = arr(c, "perform").iter().map(g_perform).collect();
     let st: Vec<String> = arr(c, "stimuli")
         .iter()
         .map(|s| {
